@@ -16,7 +16,23 @@ import (
 
 func init() { register(&profile{id: "C06", num: 6, name: "robust-parse", run: runRobustParse}) }
 
-var robustWorlds = []*world{worldIni, worldExpr, worldHeredoc, worldBasic, worldConformance, worldCallbacks, worldDurations, worldMisc}
+// coreWorlds are the hand-written worlds; miniWorlds port the grammar shapes of the repository's
+// own parser tests; exampleWorlds port the grammars under _examples.
+var coreWorlds = []*world{worldIni, worldExpr, worldHeredoc, worldBasic, worldConformance, worldCallbacks, worldDurations, worldMisc}
+
+var robustWorlds = append(append(append([]*world{}, coreWorlds...), miniWorlds...), exampleWorlds...)
+
+// pickWorld draws a world: half of the time a core world, otherwise a mini or an example world.
+func pickWorld() *world {
+	switch simrt.Choose(4) {
+	case 0, 1:
+		return coreWorlds[simrt.Choose(len(coreWorlds))]
+	case 2:
+		return miniWorlds[simrt.Choose(len(miniWorlds))]
+	default:
+		return exampleWorlds[simrt.Choose(len(exampleWorlds))]
+	}
+}
 
 // lineCol recomputes line and column (1-based, column in runes) of a byte offset in d.
 func lineCol(d string, off int) (line, col int) {
@@ -70,7 +86,7 @@ func runRobustParse(rc *RunCtx) *Violation {
 var defaultMaxIterations = participle.MaxIterations
 
 func robustOne(rc *RunCtx) *Violation {
-	w := robustWorlds[simrt.Choose(len(robustWorlds))]
+	w := pickWorld()
 	o, variant := drawBuild(w)
 	delims := runDelims(rc.seed)
 	var p PH
@@ -81,7 +97,7 @@ func robustOne(rc *RunCtx) *Violation {
 		return &Violation{Signature: "parse/" + w.name + "/build-panic", Detail: pn}
 	}
 	rc.agg.Worlds[w.name]++
-	x, dc := drawDoc(w, delims, 40)
+	x, dc := drawDoc(w, delims, 40, true)
 	d := x
 	var fired []string
 	if subBatch != "faultfree" {
@@ -286,7 +302,7 @@ func robustOne(rc *RunCtx) *Violation {
 // robustDepth: logical recursion depth must not grow with the length of flat input and must grow
 // at most linearly with bracket nesting.
 func robustDepth(rc *RunCtx) *Violation {
-	w := robustWorlds[simrt.Choose(len(robustWorlds))]
+	w := pickWorld()
 	o, variant := drawBuild(w)
 	delims := runDelims(rc.seed)
 	var p PH
